@@ -453,8 +453,25 @@ def _install_patches(stack):
     stack.enter_context(mock.patch.object(nodemod.TestNode, "sync_states", sync_states))
 
 
+def _origin_of(exc):
+    """'harness' when the innermost frame of the traceback lies in /verif (a stub or the virtual loop raised by itself), else 'code'."""
+    import traceback
+
+    tb = traceback.extract_tb(exc.__traceback__)
+    if not tb:
+        return "code"
+    if isinstance(exc, (Horizon, Deadlock)):
+        return "code"  # raised by the virtual loop on purpose: non-termination / deadlock of the code under test
+    last = tb[-1].filename
+    if last.startswith(common.VERIF + "/"):
+        return "harness"
+    if isinstance(exc, (AttributeError, TypeError)) and any(w in str(exc) for w in ("Door", "fake_run_test_task", "MagicMock", "LazyWorkers")):
+        return "harness"  # the code under test asked a stand-in for something it does not provide
+    return "code"
+
+
 class Execution:
-    __slots__ = ("choices", "points", "trace", "exc", "exc_type", "final", "snapshots", "steps", "vtime", "graph", "swarms")
+    __slots__ = ("choices", "points", "trace", "exc", "exc_type", "final", "snapshots", "steps", "vtime", "graph", "swarms", "exc_origin")
 
 
 def execute(scn: Scenario, prefix=(), want_snapshots=False, keep_graph=False) -> Execution:
@@ -508,7 +525,7 @@ def execute(scn: Scenario, prefix=(), want_snapshots=False, keep_graph=False) ->
     loop.on_timer = on_timer
 
     x = Execution()
-    x.exc = x.exc_type = None
+    x.exc = x.exc_type = x.exc_origin = None
     with contextlib.ExitStack() as stack:
         _install_patches(stack)
         asyncio.set_event_loop(loop)
@@ -521,6 +538,10 @@ def execute(scn: Scenario, prefix=(), want_snapshots=False, keep_graph=False) ->
                 raise
             x.exc = f"{type(e).__name__}: {e}"[:400]
             x.exc_type = type(e).__name__
+            x.exc_origin = _origin_of(e)
+            if x.exc_origin == "harness":
+                # an error raised inside the harness's own stubs/oracles is never a property violation
+                raise common.HarnessError(f"exception inside the harness while executing {scn.name}: {x.exc}") from e
         finally:
             asyncio.set_event_loop(None)
     x.choices, x.points, x.trace = ch.choices, ch.points, env.trace
